@@ -3,7 +3,7 @@ from harness import family_check as F
 
 
 def run(ctx):
-    F.run_family_check(ctx, "C10", 120, 2000, mc=[("PipelineSM", "MC_PipelineSM_quick.cfg", "MC_PipelineSM.cfg")])
+    F.run_family_check(ctx, "C10", 200, 2000, mc=[("PipelineSM", "MC_PipelineSM_quick.cfg", "MC_PipelineSM.cfg")])
 
 
 replay = F.replay
